@@ -108,16 +108,16 @@ ENVRW = [
 ]
 
 remove_func = Fn(S, 'remove_func', impl='Shell', pre_rewrites=ENVRW,
-    ensures=[('C09.remove_func.frame', 'smap(final(self).envs) == smap(old(self).envs) && smap(final(self).funcs) == smap(old(self).funcs).remove(name@) '
+    ensures=[('C09+C10.remove_func.frame', 'smap(final(self).envs) == smap(old(self).envs) && smap(final(self).funcs) == smap(old(self).funcs).remove(name@) '
               '&& final(self).current_dir == old(self).current_dir && final(self).previous_dir == old(self).previous_dir')])
 
 set_env = Fn(S, 'set_env', impl='Shell', pre_rewrites=ENVRW, add_params='Tracked(p): Tracked<&mut Penv>',
     ensures=[
-        ('C09.set_env.exported_name_changes_environment',
+        ('C09+C10.set_env.exported_name_changes_environment',
          'old(p).env.contains_key(name@) ==> final(p).env == old(p).env.insert(name@, value@) && smap(final(self).envs) == smap(old(self).envs)'),
-        ('C09.set_env.other_name_is_shell_variable_only',
+        ('C09+C10.set_env.other_name_is_shell_variable_only',
          '!old(p).env.contains_key(name@) ==> final(p).env == old(p).env && smap(final(self).envs) == smap(old(self).envs).insert(name@, value@)'),
-        ('C09.set_env.frame', 'final(p).cwd == old(p).cwd && final(self).current_dir == old(self).current_dir && final(self).previous_dir == old(self).previous_dir'),
+        ('C09+C10.set_env.frame', 'final(p).cwd == old(p).cwd && final(self).current_dir == old(self).current_dir && final(self).previous_dir == old(self).previous_dir'),
     ])
 
 remove_env = Fn(S, 'remove_env', impl='Shell', ret='r', add_params='Tracked(p): Tracked<&mut Penv>',
@@ -126,12 +126,12 @@ remove_env = Fn(S, 'remove_env', impl='Shell', ret='r', add_params='Tracked(p): 
         Rw('ptn_env.is_match(name)', 'vx_is_identifier(name)', rule='R6'),
     ],
     ensures=[
-        ('C09.unset.removes_everywhere',
+        ('C09+C10.unset.removes_everywhere',
          'r ==> final(p).env == old(p).env.remove(name@) && smap(final(self).envs) == smap(old(self).envs).remove(name@) '
          '&& visible(*final(self), *final(p), name@).is_none()'),
-        ('C09.unset.invalid_name_changes_nothing', '!r ==> final(p).env == old(p).env && smap(final(self).envs) == smap(old(self).envs)'),
-        ('C09.unset.decided_by_identifier_rule', 'r == spec_is_identifier(name@)'),
-        ('C09.unset.frame', 'final(p).cwd == old(p).cwd && final(self).current_dir == old(self).current_dir && final(self).previous_dir == old(self).previous_dir'),
+        ('C09+C10.unset.invalid_name_changes_nothing', '!r ==> final(p).env == old(p).env && smap(final(self).envs) == smap(old(self).envs)'),
+        ('C09+C10.unset.decided_by_identifier_rule', 'r == spec_is_identifier(name@)'),
+        ('C09+C10.unset.frame', 'final(p).cwd == old(p).cwd && final(self).current_dir == old(self).current_dir && final(self).previous_dir == old(self).previous_dir'),
     ])
 
 set_shell_vars = Fn('src/execute.rs', 'set_shell_vars', add_params='Tracked(p): Tracked<&mut Penv>',
@@ -139,15 +139,15 @@ set_shell_vars = Fn('src/execute.rs', 'set_shell_vars', add_params='Tracked(p): 
                      why='HashMap iteration through a snapshot shim: every entry once, unspecified order')],
     rewrites=TYRW,
     ghost_args={'set_env': 'Tracked(p)'},
-    ensures=[('C09.assign.every_name_gets_its_value',
+    ensures=[('C09+C10.assign.every_name_gets_its_value',
               'forall|n: Seq<char>| smap(*envs).contains_key(n) ==> visible(*final(sh), *final(p), n) == Some(smap(*envs)[n]) '
               '|| (final(p).env.contains_key(n) && final(p).env[n] == smap(*envs)[n])'),
-             ('C09.assign.frame', 'final(p).cwd == old(p).cwd && final(sh).current_dir == old(sh).current_dir')],
+             ('C09+C10.assign.frame', 'final(p).cwd == old(p).cwd && final(sh).current_dir == old(sh).current_dir')],
     loops={0: Loop(invariant=[
-        ('C09.inv.assign.entries', 'forall|i: int| 0 <= i < __entries@.len() ==> smap(*envs).contains_key((#[trigger] __entries@[i]).0@) && smap(*envs)[__entries@[i].0@] == __entries@[i].1@'),
-        ('C09.inv.assign.distinct', 'forall|i: int, j: int| 0 <= i < j < __entries@.len() ==> (#[trigger] __entries@[i]).0@ != (#[trigger] __entries@[j]).0@'),
-        ('C09.inv.assign.done', 'forall|i: int| 0 <= i < __I ==> visible(*sh, *p, (#[trigger] __entries@[i]).0@) == Some(__entries@[i].1@) || (p.env.contains_key(__entries@[i].0@) && p.env[__entries@[i].0@] == __entries@[i].1@)'),
-        ('C09.inv.assign.frame', 'p.cwd == old(p).cwd && sh.current_dir == old(sh).current_dir'),
+        ('C09+C10.inv.assign.entries', 'forall|i: int| 0 <= i < __entries@.len() ==> smap(*envs).contains_key((#[trigger] __entries@[i]).0@) && smap(*envs)[__entries@[i].0@] == __entries@[i].1@'),
+        ('C09+C10.inv.assign.distinct', 'forall|i: int, j: int| 0 <= i < j < __entries@.len() ==> (#[trigger] __entries@[i]).0@ != (#[trigger] __entries@[j]).0@'),
+        ('C09+C10.inv.assign.done', 'forall|i: int| 0 <= i < __I ==> visible(*sh, *p, (#[trigger] __entries@[i]).0@) == Some(__entries@[i].1@) || (p.env.contains_key(__entries@[i].0@) && p.env[__entries@[i].0@] == __entries@[i].1@)'),
+        ('C09+C10.inv.assign.frame', 'p.cwd == old(p).cwd && sh.current_dir == old(sh).current_dir'),
     ])},
 )
 
@@ -187,15 +187,15 @@ unset_run = Fn('src/builtins/unset.rs', 'run', rename='unset_run', ret='r', add_
     pre_rewrites=TYRW + [Rw('let tokens = cmd.tokens.clone();', 'let tokens = vx_clone_tokens(&cmd.tokens);', rule='R7')],
     ghost_args={'remove_env': 'Tracked(p)'},
     ensures=[
-        ('C09.unset_builtin.removes_exactly_the_named_variable',
+        ('C09+C10.unset_builtin.removes_exactly_the_named_variable',
          'cmd.tokens@.len() == 2 && spec_is_identifier(cmd.tokens@[1].1@) ==> final(p).env == old(p).env.remove(cmd.tokens@[1].1@) '
          '&& smap(final(sh).envs) == smap(old(sh).envs).remove(cmd.tokens@[1].1@) && r.status == 0'),
-        ('C09.unset_builtin.otherwise_nothing_and_status_1',
+        ('C09+C10.unset_builtin.otherwise_nothing_and_status_1',
          '!(cmd.tokens@.len() == 2 && spec_is_identifier(cmd.tokens@[1].1@)) ==> final(p).env == old(p).env && smap(final(sh).envs) == smap(old(sh).envs) && r.status == 1'),
     ])
 
 UNIT = Unit('U-ENV', TEMPLATE, fns=[remove_func, set_env, remove_env, set_shell_vars, cd_run, unset_run,
-                                     Fn('src/types.rs', 'new', impl='CommandResult', ret='r', ensures=[('C09.cr.new', 'r.status == 0')])],
+                                     Fn('src/types.rs', 'new', impl='CommandResult', ret='r', ensures=[('C09+C10.cr.new', 'r.status == 0')])],
             types=[TypeItem('src/types.rs', 'struct', 'Job'), TypeItem('src/shell.rs', 'struct', 'Shell', rewrites=[Rw('types::Job', 'Job', rule='R0')]),
                    TypeItem('src/types.rs', 'struct', 'Command'), TypeItem('src/types.rs', 'struct', 'CommandLine'), TypeItem('src/types.rs', 'struct', 'CommandResult')],
             props=('C09', 'C05'))
